@@ -112,8 +112,8 @@ func (r *run) advance(stopAtWait bool) {
 			id := r.str(c.ID)
 			r.store.Delete(id)
 			r.trace = append(r.trace, map[string]interface{}{"op": "delete", "id": id})
-		case "wait":
-			r.trace = append(r.trace, map[string]interface{}{"op": "wait"})
+		case "wait", "half":
+			r.trace = append(r.trace, map[string]interface{}{"op": c.Op})
 			if stopAtWait {
 				r.pos++
 				return
@@ -196,7 +196,7 @@ func tooMany() bool {
 
 func hasWait(st []call) bool {
 	for _, c := range st {
-		if c.Op == "wait" {
+		if c.Op == "wait" || c.Op == "half" {
 			return true
 		}
 	}
@@ -208,7 +208,8 @@ func main() {
 	if len(os.Args) < 4 || os.Args[1] != "replay" {
 		vh.Fatal("usage: c36 replay <exports> <dbdir> [wait]")
 	}
-	waitMode := len(os.Args) > 4 && os.Args[4] == "wait"
+	waitMode := len(os.Args) > 4 && (os.Args[4] == "wait" || os.Args[4] == "half")
+	halfMode := len(os.Args) > 4 && os.Args[4] == "half"
 	nw := runtime.NumCPU() / 2
 	if nw < 1 {
 		nw = 1
@@ -284,21 +285,39 @@ func main() {
 		vh.Fatal("reading exports: %v (after %d)", err, n)
 	}
 	slept := 0.0
-	if waitMode && len(held) > 0 {
+	// Every phase runs all held behaviours up to their next time step; the sleep starts when the phase has ended,
+	// so any two steps separated by k time steps are at least k sleeps apart. A Wait is longer than the 5 minute
+	// window; a Half is longer than half of it, and a phase must be short enough that one Half stays inside it.
+	phaseStart := time.Now()
+	for waitMode && len(held) > 0 {
 		secs := 301.0
+		if halfMode {
+			secs = 151.0
+		}
 		if s, e := strconv.ParseFloat(os.Getenv("VERIF_C36_WAIT_S"), 64); e == nil && s > 0 {
 			secs = s
 		}
+		if halfMode && time.Since(phaseStart).Seconds() > 60 {
+			vh.Fatal("a phase between two half-window sleeps took %.0fs: one half step may no longer be inside the window", time.Since(phaseStart).Seconds())
+		}
 		t0 := time.Now()
 		time.Sleep(time.Duration(secs * float64(time.Second)))
-		slept = time.Since(t0).Seconds()
+		slept += time.Since(t0).Seconds()
+		phaseStart = time.Now()
+		var still []*run
 		for _, r := range held {
-			r.advance(false)
-			r.cleanup()
+			r.advance(true)
+			if r.pos >= len(r.steps) || r.dead {
+				r.cleanup()
+			} else {
+				still = append(still, r)
+			}
 			if tooMany() {
+				still = nil
 				break
 			}
 		}
+		held = still
 	}
 	vh.Summary(map[string]interface{}{"cases": cases, "steps": steps, "requests": reqs, "requests_any": anyc,
 		"distinct": len(classes), "slept_s": slept, "violations_by_sig": sigCnt})
